@@ -560,6 +560,13 @@ func (sc *scene) queryRay(r *rand.Rand) (o, d v3, tmin, tmax float64, class stri
 		}
 		o[k] = a
 		d[k] = -a / math.Abs(a)
+		if r.Intn(2) == 0 {
+			// the same direction obtained by flipping the opposite axis vector: the
+			// zero components come out as -0
+			var e v3
+			e[k] = a / math.Abs(a)
+			d = e.mul(-1)
+		}
 		switch r.Intn(3) {
 		case 0:
 			tmax = math.Abs(a) * (1 + 2*r.Float64())
@@ -575,36 +582,7 @@ func (sc *scene) queryRay(r *rand.Rand) (o, d v3, tmin, tmax float64, class stri
 	}
 	o, oc := sc.queryPoint(r)
 	diam := sc.diameter()
-	var dc string
-	aimDist := -1.0
-	switch pick(r, []int{25, 25, 40, 10}) {
-	case 0:
-		d = v3{}
-		d[r.Intn(3)] = float64(1 - 2*r.Intn(2))
-		dc = "axis"
-	case 1:
-		d = randDir(r)
-		dc = "generic"
-	case 2:
-		t := pointOn(r, sc.elems[r.Intn(len(sc.elems))])
-		if t.dist(o) < 1e-6*diam {
-			d = randDir(r)
-			dc = "generic"
-		} else {
-			aimDist = t.dist(o)
-			d = t.sub(o).mul(1 / aimDist)
-			dc = "aimed"
-		}
-	default:
-		for {
-			d = v3{float64(r.Intn(3) - 1), float64(r.Intn(3) - 1), float64(r.Intn(3) - 1)}
-			if d != (v3{}) {
-				break
-			}
-		}
-		d = d.unit()
-		dc = "diagonal"
-	}
+	d, dc, aimDist := sc.direction(r, o, []int{25, 25, 40, 10})
 	switch pick(r, []int{60, 10, 30}) {
 	case 0:
 		tmin = 0
@@ -613,11 +591,13 @@ func (sc *scene) queryRay(r *rand.Rand) (o, d v3, tmin, tmax float64, class stri
 	default:
 		tmin = diam * 0.5 * r.Float64()
 	}
-	switch pick(r, []int{50, 30, 20}) {
+	switch pick(r, []int{45, 30, 20, 5}) {
 	case 0:
 		tmax = diam * 1000
 	case 1:
 		tmax = tmin + diam*2*r.Float64()
+	case 3:
+		tmax = []float64{1e30, math.MaxFloat64, math.Inf(1)}[r.Intn(3)]
 	default:
 		if aimDist > 0 {
 			tmax = aimDist
@@ -641,7 +621,8 @@ func checkRay(c *run.Ctx, res *run.Result, sc *scene, b *built, r *rand.Rand, to
 		return
 	}
 	res.SetAdd("ray_classes", class)
-	q := map[string]any{"origin": o, "direction": d, "min": tmin, "max": tmax, "class": class}
+	countSignedZero(res, d, "rays")
+	q := map[string]any{"origin": o, "direction": fmtV(d), "min": tmin, "max": fmt.Sprint(tmax), "class": class}
 	// polyform grows every box by 1e-10 before the slab test; the reference excludes
 	// only what misses a box grown by a little more, and demands only what crosses
 	// the un-grown box over a parameter interval of positive length.
@@ -792,6 +773,27 @@ func checkRay(c *run.Ctx, res *run.Result, sc *scene, b *built, r *rand.Rand, to
 	if (bruteI >= 0) != (bestI >= 0) || (bruteI >= 0 && math.Abs(best-bruteT) > tt) {
 		res.Violate("nearest-hit-mismatch", "OctTree.TraverseIntersectingRay (narrowing max)", sc.kind,
 			fmt.Sprintf("ray o=%v d=%v [%g,%g]: exhaustive nearest hit: triangle %d at t=%.12g; traversal with narrowed max found triangle %d at t=%.12g", o, d, tmin, tmax, bruteI, bruteT, bestI, best),
-			sc.witness(b, q, map[string]any{"i": bestI, "t": best}, map[string]any{"i": bruteI, "t": bruteT}))
+			sc.witness(b, q, map[string]any{"i": bestI, "t": fmt.Sprint(best)}, map[string]any{"i": bruteI, "t": fmt.Sprint(bruteT)}))
+	}
+}
+
+// fmtV renders a vector with the sign of zero visible (JSON would drop it).
+func fmtV(a v3) string { return fmt.Sprintf("[%v %v %v]", a[0], a[1], a[2]) }
+
+func countSignedZero(res *run.Result, d v3, what string) {
+	nz, dn := false, false
+	for _, x := range d {
+		if x == 0 && math.Signbit(x) {
+			nz = true
+		}
+		if x != 0 && math.Abs(x) < 2.3e-308 {
+			dn = true
+		}
+	}
+	if nz {
+		res.Count(what+"_with_negative_zero_direction_component", 1)
+	}
+	if dn {
+		res.Count(what+"_with_denormal_direction_component", 1)
 	}
 }
